@@ -7,6 +7,112 @@ def fingerprint(case, d):
     return None
 
 
+def real_world(rep):
+    """The repository's example scripts and every script text its own test-suite parses: TLC (Trace_Load) is the oracle for the
+    program each denotes, and validates the trace of listener callbacks recorded from the real load."""
+    import glob, os, subprocess, tempfile
+    from .. import absyn, realrun, tracer, oracle_load, progcmp, values
+    import blackbird
+    out = os.path.join(common.scratch(), "snippets.json")
+    p = subprocess.run([common.PY, "-m", "harness.capture_snippets", common.REPO, out], cwd=common.VERIF, env=common.repo_python_env(),
+                       stdout=subprocess.PIPE, stderr=subprocess.STDOUT, text=True)
+    texts = []
+    if p.returncode == 0 and os.path.exists(out):
+        texts = [(None, t) for t in json.load(open(out))]
+    for f in sorted(glob.glob(os.path.join(common.REPO, "examples", "*.xbb"))):
+        texts.append((f, open(f).read()))
+    cases = []
+    skipped = 0
+    for path, text in texts:
+        try:
+            s = absyn.tree2abs(realrun.parse_tree(text), None)
+        except BaseException:      # noqa: BLE001   ungrammatical or unsupported text: the syntax stage is C10's subject
+            skipped += 1
+            continue
+        if s["incs"] and path is None:
+            skipped += 1
+            continue
+        atoms = []
+        s2 = oracle_load.shrink(s, atoms)
+        files = []
+        ok = True
+        for inc in s2["incs"]:
+            fp = os.path.join(os.path.dirname(path), inc)
+            try:
+                files.append({"path": {"dirs": ["ex%d" % len(cases)], "file": inc},
+                              "s": oracle_load.shrink(absyn.tree2abs(realrun.parse_tree(open(fp).read()), None), atoms)})
+            except BaseException:      # noqa: BLE001
+                ok = False
+        if not ok or any(f["s"]["incs"] for f in files):
+            skipped += 1
+            continue
+        s2["incs"] = [{"abs": False, "dirs": [], "file": inc} for inc in s2["incs"]]
+        with tracer.recording() as ev:
+            if path:
+                try:
+                    real = ("ok", blackbird.load(path))
+                except BaseException as e:      # noqa: BLE001
+                    real = ("raise", type(e).__name__, str(e.args[0]) if e.args else str(e))
+            else:
+                real = realrun.loads(text)
+        cases.append(dict(s=s2, files=files, base=["ex%d" % len(cases)], events=list(ev), real=real, atoms=atoms, text=text))
+    if not cases:
+        return
+    r, res = oracle_load.run(cases)
+    rep.add_tlc(r, "Trace_Load (oracle + trace validation for %d real scripts: examples and test-suite snippets)" % len(cases))
+    verdicts = {}
+    for c, o in zip(cases, res):
+        verdicts[o["trace"]] = verdicts.get(o["trace"], 0) + 1
+        values.EXTRA_ATOMS = dict(enumerate(c["atoms"]))
+        try:
+            why = progcmp.cmp_outcome(o["out"], c["real"], sections=("meta", "ops", "modes", "params"), strict_cls=False)
+        finally:
+            values.EXTRA_ATOMS = {}
+        if why:
+            rep.violation("real script: %s | trace verdict %s at event %d | script:\n%s" % (why, o["trace"], o["at"], c["text"]),
+                          {"text": c["text"], "reason": why, "trace": o["trace"], "fingerprint": None})
+        elif o["trace"] not in ("accepted", "unspecified", "none"):
+            rep.notes.append("trace of a real load left the listener machine (%s at event %d) although the outcome agrees: %r" % (o["trace"], o["at"], c["text"][:120]))
+    # the binding is not vacuous: corrupted copies of accepted traces (an event dropped, an operation count changed,
+    # two events swapped, an exception invented) must be rejected by the trace specification
+    import copy
+    good = [c for c, o in zip(cases, res) if o["trace"] == "accepted" and len(c["events"]) >= 6][:8]
+    corrupt = []
+    for c in good:
+        ev = c["events"]
+        idx = [i for i, e in enumerate(ev) if e["ev"] == "exitStatement"]
+        if not idx:
+            continue
+        i = idx[len(idx) // 2]
+        for kind in ("drop", "nops", "swap", "exc"):
+            e2 = copy.deepcopy(ev)
+            if kind == "drop":
+                del e2[i]
+            elif kind == "nops":
+                e2[i]["nops"] += 1
+            elif kind == "swap":
+                e2[i], e2[i - 1] = e2[i - 1], e2[i]
+                if e2[i]["ev"] == e2[i - 1]["ev"] and e2[i]["nops"] == e2[i - 1]["nops"]:
+                    continue
+            else:
+                e2[i]["exc"] = "ValueError"
+            corrupt.append(dict(c, events=e2, corruption=kind))
+    if corrupt:
+        r2, res2 = oracle_load.run(corrupt)
+        rep.add_tlc(r2, "Trace_Load on %d corrupted traces (must be rejected)" % len(corrupt))
+        accepted = [c["corruption"] for c, o in zip(corrupt, res2) if o["trace"] == "accepted"]
+        rep.cov["corrupted_traces_rejected"] = len(corrupt) - len(accepted)
+        if accepted:
+            raise common.MachineryError("trace validation is vacuous: corrupted traces accepted (%s)" % accepted)
+    rep.cov["real_scripts"] = len(cases)
+    rep.cov["real_scripts_skipped"] = skipped
+    rep.cov["trace_verdicts"] = verdicts
+    rep.cov["traces_validated_against_impl"] += len(cases)
+    rep.cov["evaluations"] += len(cases)
+    rep.cov["distinct_nontrivial"] += sum(1 for o in res if o["out"]["k"] != "unspec")
+    rep.sample({"real_script": cases[-1]["text"][-300:], "events": [e["ev"] for e in cases[-1]["events"]][:12], "trace_verdict": res[-1]["trace"]})
+
+
 def run(rep, tier, seed):
     N = 2 if tier == "quick" else 3
     cases = loadcheck.explore(rep, "MC_C02", N)
@@ -14,9 +120,11 @@ def run(rep, tier, seed):
                             invariants=loadcheck.INVARIANTS, props=[])
     cases += sim
     loadcheck.replay_cases(rep, cases, seed, sections=("meta", "ops", "modes"), fingerprint=fingerprint, strict_cls=False)
+    real_world(rep)
     rep.cov["rule"] = ("scripts built item by item from a menu of 20 body items (typed scalars, arrays, statements with every argument/bracket "
                        "style, Measure*, range and list loops) x 3 metadata variants: exhaustive up to N=%d items, random walks up to 8 items; "
-                       "distinct scripts; non-trivial = the specification gives a program or a refusal (not 'unspecified')" % N)
+                       "distinct scripts; non-trivial = the specification gives a program or a refusal (not 'unspecified'); plus the repository's examples "
+                       "and the script texts of its test-suite, with TLC as oracle and validator of the recorded listener trace" % N)
     rep.assumptions += ["harness/absyn.render (checked per case: the real parse tree of the rendered text converts back to the abstract script)",
                         "numbers compared by kind (bool/int/float/complex) and value; keyword arguments as a mapping"]
 
